@@ -11,7 +11,8 @@ RULE = ("case = (generated program: 1..3 modules, comb + 1..2 sync domains (eith
         "any nesting (<= 3) of If/Elif/Else, Switch/Case (integer, multi-pattern, don't-care strings with spaces, unreachable and "
         "empty cases, Default, cases after Default), FSM/State/next/ongoing; targets: signal, slice, nested slice, concatenation, "
         "bit_select/word_select with in- and out-of-range offsets, array element, sign reinterpretation; right-hand sides from the "
-        "exact-integer grammar of dsim/refint.py), scheduler order, explicit step list of input writes, clock level changes "
+        "exact-integer grammar of dsim/refint.py, incl. ClockSignal / ResetSignal reads; up to two modules define a domain of their "
+        "own under an outer domain's name), scheduler order, explicit step list of input writes, clock level changes "
         "(alone / coincident, active / inactive), reset pulses landing in every FSM state). Non-trivial = some driven signal "
         "changed and a fault kind fired; distinct = distinct SHA-256 of the observation trace.")
 ASSUMPTIONS = [
@@ -25,7 +26,7 @@ COMPONENTS = {"real": ["amaranth.hdl._dsl.Module (If/Elif/Else, Switch/Case/Defa
               "stub": ["PermSet scheduler seam", "clock/reset driver", "reference interpreter (dsim/refint.py)"]}
 EXPECTED_PROBES = ("sched", "coincide", "inactive", "srst", "arst", "if", "switch", "fsm", "part", "array", "cat", "as_signed",
                    "matches", "dontcare_pattern", "submodules", "zero_width", "obs_changes")
-OPTS = {"max_domains": 2, "max_modules": 3, "wrappers": False, "prints": False, "fsm": True}
+OPTS = {"max_domains": 2, "max_modules": 3, "wrappers": False, "prints": False, "fsm": True, "shadows": True, "clock_reads": True}
 
 
 def gen_case(seed, tier):
